@@ -11,7 +11,7 @@
    against what CPython prints. *)
 From Coq Require Import List ZArith NArith Bool.
 From Orso Require Import Base.Civil Gen.C08_Tables Model.C08 Gen.C07_Tables Model.C07.
-From Orso Require Import Proofs.C07_Int Proofs.C07_Dec Proofs.C07.
+From Orso Require Import Proofs.C07_Int Proofs.C07_Dec Proofs.C07 Proofs.C07_Session.
 Import ListNotations.
 Open Scope Z_scope.
 
@@ -292,7 +292,79 @@ Theorem C07_column_class :
 Proof. exact column_class. Qed.
 Print Assumptions C07_column_class.
 
+(* ---- type names: what OrsoTypes.from_name makes of a member name, VARCHAR[n], BLOB[n],
+   DECIMAL(p,s) and ARRAY<member> (limits and the forbidden element types regenerated) ---- *)
+Theorem C07_from_name_table :
+  (forall t, t <> T_ARRAY -> from_name (TNPlain t) = ROk (t, nokw)) /\
+  from_name (TNPlain T_ARRAY) = ROk (T_ARRAY, mkkw None None None (Some T_VARCHAR)) /\
+  (forall n, from_name (TNVarchar n) = ROk (T_VARCHAR, mkkw (Some n) None None None)) /\
+  (forall n, from_name (TNBlob n) = ROk (T_BLOB, mkkw (Some n) None None None)) /\
+  (forall p s, 0 <= s <= p -> p <= name_max_precision -> s <= name_max_scale ->
+               from_name (TNDecimal p s) = ROk (T_DECIMAL, mkkw None (Some p) (Some s) None)) /\
+  (forall p s, ~ (0 <= s <= p /\ p <= name_max_precision /\ s <= name_max_scale) -> from_name (TNDecimal p s) = RErr XValue) /\
+  (forall et, array_element_forbidden et = false -> from_name (TNArray et) = ROk (T_ARRAY, mkkw None None None (Some et))) /\
+  (forall et, array_element_forbidden et = true -> from_name (TNArray et) = RErr XValue).
+Proof. exact from_name_table. Qed.
+Print Assumptions C07_from_name_table.
+
+(* ---- FlatColumn(type=<name>, length=, precision=, scale=, element_type=, default=x).default:
+   the column default of the type the name denotes, with the parameters written in the name
+   wherever the constructor was not given one; a name from_name rejects raises ValueError.
+   Hence every theorem about [column_default] / [parse] holds for columns declared by name. ---- *)
+Theorem C07_named_column :
+  forall ft fb rp jl jd sc (n : tname) (k : kwargs) (x : pyval),
+  (forall t kn, from_name n = ROk (t, kn) ->
+     column_named ft fb rp jl jd sc n k x = column_default ft fb rp jl jd sc t (merge_kw k kn) x) /\
+  (forall e, from_name n = RErr e -> column_named ft fb rp jl jd sc n k x = RErr XValue).
+Proof. exact column_named_spec. Qed.
+Print Assumptions C07_named_column.
+
+Theorem C07_named_prefix :
+  forall ft fb rp jl jd sc (n : Z) (t b : list N), 1 <= n ->
+  column_named ft fb rp jl jd sc (TNVarchar n) nokw (PStr t) = ROk (PStr (firstn (Z.to_nat n) t)) /\
+  column_named ft fb rp jl jd sc (TNBlob n) nokw (PBytes b) = ROk (PBytes (firstn (Z.to_nat n) b)).
+Proof. exact named_prefix. Qed.
+Print Assumptions C07_named_prefix.
+
+(* ---- sessions: in ANY sequence of operations of one process (type names resolved, columns
+   declared with parameterised types, casts with or without parameters) the outcome of each
+   operation is the outcome of that operation alone: a cast depends on its type, its value and
+   the parameters given to THAT cast only - never on a length / precision / scale / element type
+   that an earlier operation mentioned.  [run_session] is what the correspondence evaluates on
+   the sessions the implementation ran. ---- *)
+Theorem C07_session_pure :
+  forall ft fb rp jl jd sc (pre post : list op) (o : op),
+  length (run_session ft fb rp jl jd sc (pre ++ o :: post)) = length (pre ++ o :: post) /\
+  nth_error (run_session ft fb rp jl jd sc (pre ++ o :: post)) (length pre) = Some (run_op ft fb rp jl jd sc o).
+Proof. exact session_pure_len. Qed.
+Print Assumptions C07_session_pure.
+
+Theorem C07_session_cast_independent :
+  forall ft fb rp jl jd sc (pre post : list op) (col : bool) (t : otype) (k : kwargs) (x : pyval),
+  nth_error (run_session ft fb rp jl jd sc (pre ++ OCast col t k x :: post)) (length pre)
+  = Some (OutVal (if col then column_default ft fb rp jl jd sc t k x else parse ft fb rp jl jd sc t k x)).
+Proof. exact session_cast. Qed.
+Print Assumptions C07_session_cast_independent.
+
+Theorem C07_session_prefix_irrelevant :
+  forall ft fb rp jl jd sc (pre1 pre2 post1 post2 : list op) (o : op),
+  nth_error (run_session ft fb rp jl jd sc (pre1 ++ o :: post1)) (length pre1)
+  = nth_error (run_session ft fb rp jl jd sc (pre2 ++ o :: post2)) (length pre2).
+Proof. exact session_two_prefixes. Qed.
+Print Assumptions C07_session_prefix_irrelevant.
+
 (* ---- non-vacuity ---- *)
+(* sessions: VARCHAR[3] resolved and declared, then the bare VARCHAR cast keeps the whole text;
+   names from_name rejects; the bare name ARRAY has VARCHAR elements *)
+Example C07_session_nonvacuous :
+  forall ft fb rp jl jd sc,
+  run_session ft fb rp jl jd sc
+    [OResolve (TNVarchar 3); ODeclare (TNVarchar 3) nokw (PStr [97; 98; 99; 100]%N); OCast false T_VARCHAR nokw (PStr [97; 98; 99; 100]%N);
+     OResolve (TNDecimal 39 2); OResolve (TNArray T_DECIMAL); OResolve (TNPlain T_ARRAY)]
+  = [OutName (ROk (T_VARCHAR, mkkw (Some 3) None None None)); OutVal (ROk (PStr [97; 98; 99]%N)); OutVal (ROk (PStr [97; 98; 99; 100]%N));
+     OutName (RErr XValue); OutName (RErr XValue); OutName (ROk (T_ARRAY, mkkw None None None (Some T_VARCHAR)))].
+Proof. exact session_witness. Qed.
+
 (* INTEGER: a negative number, padded *)
 Example C07_integer_nonvacuous :
   forall ft fb rp jl jd sc,
